@@ -550,3 +550,98 @@ Theorem C07_bin_resave_fixed_point_sample :
          encode_file BinFileFacts.db0 BinFileFacts.ep0 None out2 (children_of out2 0) = Ok b2.
 Proof. exact bin_resave_fixed_point_sample. Qed.
 
+(* ---- round 3 (Proofs/ResaveFixedPoint2.v): the second-save shared-string hypothesis is DERIVED (invariant `sinv` along add_loop: in this class every
+   string of the second table is a database default the first traversal recorded too), and the second save is shown not to fail
+   (bin_resave_fixed_point_total: existence of b2 is proved).  What remains assumed about the second save is the size limit / compressor law of its chunks. *)
+From RbxVerif Require Import ResaveFixedPoint2.
+Theorem C07_bin_resave_fixed_point_closed :
+  forall (d : db) (ep : enc_params) (cmp : compression) (dom : cdom) (ts : list tree) 
+         (b : bytes) (p : dec_params) (st : ser_state),
+       BinRoundTrip.input_ok dom ts ->
+       BinRoundTrip.names_ok dom ->
+       BinRoundTrip.unknown_props d dom ->
+       ep_order ep [] = [] ->
+       encode_file d ep cmp dom (List.map root ts) = Ok b ->
+       add_instances d ep dom (List.map root ts) = Ok st ->
+       dp_lim p = None ->
+       (forall e : encoded, encode_chunks d ep dom (List.map root ts) = Ok e -> BinRoundTrip.frame_ok p cmp e) ->
+       BinRoundTrip.sstr_ok st ->
+       (forall x : BinRoundTrip.column,
+        In x (BinRoundTrip.cols (ss_types st)) ->
+        fst (snd x) <> NAME ->
+        BinRoundTrip.simple_col (pi_type (snd (snd x))) (BinRoundTrip.col_values ep dom x)) ->
+       BinRename.db_defaults_null d = true ->
+       exists out : cdom,
+         decode_file d p b = Ok out /\
+         BinRoundTrip.same_forest dom ts (BinRoundTrip.lbl st) out /\
+         encode_file d ep cmp out (children_of out 0) =
+         encode_file d ep cmp (bnorm_dom st (List.map root ts) dom) (List.map root ts) /\
+         (forall b2 : bytes,
+          encode_file d ep cmp out (children_of out 0) = Ok b2 ->
+          (forall e2 : encoded,
+           encode_chunks d ep out (children_of out 0) = Ok e2 -> BinRoundTrip.frame_ok p cmp e2) ->
+          exists out2 : cdom,
+            decode_file d p b2 = Ok out2 /\ encode_file d ep cmp out2 (children_of out2 0) = Ok b2).
+Proof. exact bin_resave_fixed_point_closed. Qed.
+
+Theorem C07_bin_resave_fixed_point_total :
+  forall (d : db) (ep : enc_params) (cmp : compression) (dom : cdom) (ts : list tree) 
+         (b : bytes) (p : dec_params) (st : ser_state),
+       BinRoundTrip.input_ok dom ts ->
+       BinRoundTrip.names_ok dom ->
+       BinRoundTrip.unknown_props d dom ->
+       ep_order ep [] = [] ->
+       encode_file d ep cmp dom (List.map root ts) = Ok b ->
+       add_instances d ep dom (List.map root ts) = Ok st ->
+       dp_lim p = None ->
+       (forall e : encoded, encode_chunks d ep dom (List.map root ts) = Ok e -> BinRoundTrip.frame_ok p cmp e) ->
+       BinRoundTrip.sstr_ok st ->
+       (forall x : BinRoundTrip.column,
+        In x (BinRoundTrip.cols (ss_types st)) ->
+        fst (snd x) <> NAME ->
+        BinRoundTrip.simple_col (pi_type (snd (snd x))) (BinRoundTrip.col_values ep dom x)) ->
+       BinRename.db_defaults_null d = true ->
+       (forall e2 : encoded,
+        encode_chunks d ep (bnorm_dom st (List.map root ts) dom) (List.map root ts) = Ok e2 ->
+        BinRoundTrip.frame_ok p cmp e2) ->
+       exists (out : cdom) (b2 : bytes) (out2 : cdom),
+         decode_file d p b = Ok out /\
+         BinRoundTrip.same_forest dom ts (BinRoundTrip.lbl st) out /\
+         encode_file d ep cmp out (children_of out 0) = Ok b2 /\
+         decode_file d p b2 = Ok out2 /\ encode_file d ep cmp out2 (children_of out2 0) = Ok b2.
+Proof. exact bin_resave_fixed_point_total. Qed.
+
+Theorem C07_bin_resave_fixed_point_uncompressed :
+  forall (d : db) (ep : enc_params) (dom : cdom) (ts : list tree) (b : bytes) 
+         (p : dec_params) (st : ser_state),
+       BinRoundTrip.input_ok dom ts ->
+       BinRoundTrip.names_ok dom ->
+       BinRoundTrip.unknown_props d dom ->
+       ep_order ep [] = [] ->
+       encode_file d ep None dom (List.map root ts) = Ok b ->
+       add_instances d ep dom (List.map root ts) = Ok st ->
+       dp_lim p = None ->
+       (forall e : encoded, encode_chunks d ep dom (List.map root ts) = Ok e -> chunks_small e) ->
+       BinRoundTrip.sstr_ok st ->
+       (forall x : BinRoundTrip.column,
+        In x (BinRoundTrip.cols (ss_types st)) ->
+        fst (snd x) <> NAME ->
+        BinRoundTrip.simple_col (pi_type (snd (snd x))) (BinRoundTrip.col_values ep dom x)) ->
+       BinRename.db_defaults_null d = true ->
+       (forall e2 : encoded,
+        encode_chunks d ep (bnorm_dom st (List.map root ts) dom) (List.map root ts) = Ok e2 ->
+        chunks_small e2) ->
+       exists (out : cdom) (b2 : bytes) (out2 : cdom),
+         decode_file d p b = Ok out /\
+         encode_file d ep None out (children_of out 0) = Ok b2 /\
+         decode_file d p b2 = Ok out2 /\ encode_file d ep None out2 (children_of out2 0) = Ok b2.
+Proof. exact bin_resave_fixed_point_uncompressed. Qed.
+
+Theorem C07_bin_resave_fixed_point_uncompressed_sample :
+  exists (out : cdom) (b2 : bytes) (out2 : cdom),
+         decode_file BinFileFacts.db0 (BinFileFacts.dp0 None) BinFileFacts.sample_file = Ok out /\
+         encode_file BinFileFacts.db0 BinFileFacts.ep0 None out (children_of out 0) = Ok b2 /\
+         decode_file BinFileFacts.db0 (BinFileFacts.dp0 None) b2 = Ok out2 /\
+         encode_file BinFileFacts.db0 BinFileFacts.ep0 None out2 (children_of out2 0) = Ok b2.
+Proof. exact bin_resave_fixed_point_uncompressed_sample. Qed.
+
